@@ -27,6 +27,7 @@ func atomBit(id uint32, bit int) string {
 	if !ok {
 		v = uint32(len(atomBitIDs) + 1)
 		atomBitIDs[k] = v
+		atomByID[v] = atomRef{curAtom, bit}
 	}
 	return string([]byte{byte(v >> 16), byte(v >> 8), byte(v)})
 }
@@ -118,7 +119,12 @@ func peq(a, b poly) bool {
 	return true
 }
 
+var curAtom *T
+
+var DebugANF = false
+
 func atom(t *T) *anfRes {
+	curAtom = t
 	n := t.W
 	if n == 0 {
 		n = 1
@@ -386,3 +392,262 @@ func ANFStats(t *T) (deg, monos int, ok bool) {
 func AtomCount() int { return len(atomBitIDs) }
 
 var _ = sort.Ints
+
+// ---- rewriting of conditions: injective-hash equalities and affine systems ----
+
+type atomRef struct {
+	t   *T
+	bit int
+}
+
+var atomByID = map[uint32]atomRef{}
+
+func init() { resetHooks = append(resetHooks, func() { atomByID = map[uint32]atomRef{} }) }
+
+// RewriteCond simplifies a boolean condition without changing its meaning
+// (under the injective model of MD5): complete byte-wise comparisons of two
+// MD5 values become comparisons of the hashed messages, and equalities between
+// GF(2)-affine terms are replaced by their reduced row echelon form.
+func RewriteCond(c *T) *T {
+	switch c.Op {
+	case OpBNot:
+		return BNot(RewriteCond(c.Args[0]))
+	case OpBOr:
+		r := False
+		for _, a := range c.Args {
+			r = BOr(r, RewriteCond(a))
+		}
+		return r
+	case OpBAnd:
+		return rewriteAnd(c.Args)
+	case OpEq:
+		if c.Args[0].W > 0 {
+			if r, ok := SolveAffineEq(c.Args[0], c.Args[1]); ok {
+				return r
+			}
+		}
+	}
+	return c
+}
+
+func rewriteAnd(args []*T) *T {
+	type pair struct{ a, b string }
+	groups := map[pair][]*T{}
+	msgs := map[pair][2][]*T{}
+	var rest []*T
+	key := func(m []*T) string {
+		b := make([]byte, 0, 4*len(m)+1)
+		for _, x := range m {
+			b = append(b, byte(x.ID), byte(x.ID>>8), byte(x.ID>>16), byte(x.ID>>24))
+		}
+		return string(b)
+	}
+	for _, x := range args {
+		if x.Op == OpEq && x.Args[0].Op == OpMD5Byte && x.Args[1].IsConst() {
+			p := pair{key(x.Args[0].Args), "const"}
+			groups[p] = append(groups[p], x)
+			msgs[p] = [2][]*T{x.Args[0].Args, nil}
+			continue
+		}
+		if x.Op == OpEq && x.Args[0].Op == OpMD5Byte && x.Args[1].Op == OpMD5Byte && x.Args[0].Lo == x.Args[1].Lo {
+			p := pair{key(x.Args[0].Args), key(x.Args[1].Args)}
+			groups[p] = append(groups[p], x)
+			msgs[p] = [2][]*T{x.Args[0].Args, x.Args[1].Args}
+			continue
+		}
+		rest = append(rest, x)
+	}
+	r := True
+	// deterministic order
+	var keys []pair
+	for p := range groups {
+		keys = append(keys, p)
+	}
+	sort.Slice(keys, func(i, j int) bool {
+		if keys[i].a != keys[j].a {
+			return keys[i].a < keys[j].a
+		}
+		return keys[i].b < keys[j].b
+	})
+	for _, p := range keys {
+		g := groups[p]
+		seen := map[int]bool{}
+		for _, x := range g {
+			seen[x.Args[0].Lo] = true
+		}
+		if len(seen) == 16 && p.b == "const" {
+			var d [16]byte
+			for _, x := range g {
+				d[x.Args[0].Lo] = byte(x.Args[1].Val)
+			}
+			if msg, ok := LookupConcreteMD5(d); ok {
+				m := msgs[p][0]
+				if len(m) != len(msg) {
+					return False
+				}
+				for i := range m {
+					r = BAnd(r, Eq(m[i], Const(8, uint64(msg[i]))))
+				}
+				continue
+			}
+			for _, x := range g {
+				rest = append(rest, x)
+			}
+			continue
+		}
+		if len(seen) == 16 {
+			m := msgs[p]
+			if len(m[0]) != len(m[1]) {
+				return False
+			}
+			for i := range m[0] {
+				r = BAnd(r, Eq(m[0][i], m[1][i]))
+			}
+			continue
+		}
+		for _, x := range g {
+			rest = append(rest, x)
+		}
+	}
+	for _, x := range rest {
+		r = BAnd(r, RewriteCond(x))
+	}
+	return r
+}
+
+// SolveAffineEq rewrites a == b, when a^b is affine over GF(2) in its atom
+// bits, into an equivalent conjunction "pivot bit == xor of other bits"
+// (reduced row echelon form), or False when the system is inconsistent.
+func SolveAffineEq(a, b *T) (*T, bool) {
+	if a.W <= 0 || a.W > 64 {
+		return nil, false
+	}
+	ra, rb := anf(a), anf(b)
+	if !ra.ok || !rb.ok {
+		if DebugANF {
+			println("SolveAffineEq: anf failed", ra.ok, rb.ok, Size(a), Size(b))
+		}
+		return nil, false
+	}
+	type row struct {
+		atoms map[uint32]bool
+		c     bool
+	}
+	var rows []row
+	total := 0
+	for i := range ra.bits {
+		p := pxor(ra.bits[i], rb.bits[i])
+		r := row{atoms: map[uint32]bool{}}
+		for m := range p {
+			switch len(m) {
+			case 0:
+				r.c = !r.c
+			case 3:
+				id := uint32(m[0])<<16 | uint32(m[1])<<8 | uint32(m[2])
+				r.atoms[id] = true
+			default:
+				if DebugANF {
+					println("SolveAffineEq: not affine, monomial len", len(m))
+				}
+				return nil, false // not affine
+			}
+		}
+		total += len(r.atoms)
+		rows = append(rows, r)
+	}
+	if total == 0 || total > 4096 {
+		if DebugANF {
+			println("SolveAffineEq: total atoms", total)
+		}
+		return nil, false
+	}
+	// only worthwhile when something non-trivial is mixed (more than one atom per row)
+	mixed := false
+	for _, r := range rows {
+		if len(r.atoms) > 2 {
+			mixed = true
+		}
+	}
+	if !mixed {
+		if DebugANF {
+			println("SolveAffineEq: not mixed")
+		}
+		return nil, false
+	}
+	if DebugANF {
+		println("SolveAffineEq: solving", len(rows), "rows", total, "atoms")
+	}
+	// Gaussian elimination, pivoting on the largest atom id
+	var out []row
+	for len(rows) > 0 {
+		r := rows[0]
+		rows = rows[1:]
+		if len(r.atoms) == 0 {
+			if r.c {
+				return False, true
+			}
+			continue
+		}
+		var piv uint32
+		for id := range r.atoms {
+			if id > piv {
+				piv = id
+			}
+		}
+		elim := func(x *row) {
+			if x.atoms[piv] {
+				for id := range r.atoms {
+					if x.atoms[id] {
+						delete(x.atoms, id)
+					} else {
+						x.atoms[id] = true
+					}
+				}
+				x.c = x.c != r.c
+			}
+		}
+		for i := range rows {
+			elim(&rows[i])
+		}
+		for i := range out {
+			elim(&out[i])
+		}
+		out = append(out, r)
+	}
+	res := True
+	for _, r := range out {
+		var piv uint32
+		for id := range r.atoms {
+			if id > piv {
+				piv = id
+			}
+		}
+		ids := make([]uint32, 0, len(r.atoms))
+		for id := range r.atoms {
+			if id != piv {
+				ids = append(ids, id)
+			}
+		}
+		sort.Slice(ids, func(i, j int) bool { return ids[i] < ids[j] })
+		rhs := Const(1, 0)
+		if r.c {
+			rhs = Const(1, 1)
+		}
+		for _, id := range ids {
+			rhs = Xor(rhs, atomBitTerm(id))
+		}
+		res = BAnd(res, mk(OpEq, 0, 0, "", 0, 0, atomBitTerm(piv), rhs))
+	}
+	return res, true
+}
+
+func atomBitTerm(id uint32) *T {
+	ar, ok := atomByID[id]
+	if !ok {
+		panic("anf: unknown atom")
+	}
+	if ar.t.W == 0 {
+		return Ite(ar.t, Const(1, 1), Const(1, 0))
+	}
+	return Extract(ar.t, ar.bit, ar.bit)
+}
